@@ -601,8 +601,8 @@ Proof.
        by (apply step_marked; [exact Hgt|intros; discriminate]));
     (split; [eapply marked_all_alive; eauto|]); intros h0;
     rewrite (marked_data_of _ _ Hm), accepted_snoc, Hn;
-    match goal with |- context [accepted_one h0 (?o, snd (step r ?o))] =>
-      replace (accepted_one h0 (o, snd (step r o))) with (@nil Z); [now rewrite app_nil_r|] end;
+    match goal with |- context [accepted_one h0 ?ox] =>
+      replace (accepted_one h0 ox) with (@nil Z); [now rewrite app_nil_r|] end;
     cbn [step]; repeat break_match; reflexivity.
   cbn [alive_add] in Hga. destruct k; try discriminate. clear Hga Hgt.
   cbn [step]. pose proof (add_change_outcome r w data KAlive h t rts) as O.
@@ -692,8 +692,8 @@ Proof.
   2-7: (split; [now rewrite step_qos|]);
     (assert (Hm : marked (r_samples (fst (step r _))) (r_samples r))
        by (apply step_marked; [exact Hgt|intros; discriminate]));
-    match goal with |- context [(?o, snd (step r ?o))] =>
-      assert (Hnil : forall h0, accepted_one h0 (o, snd (step r o)) = [])
+    match goal with |- context [_ ++ [?ox]] =>
+      assert (Hnil : forall h0, accepted_one h0 ox = [])
         by (intros h0; cbn [step]; repeat break_match; reflexivity) end;
     (split; [intros h0 d0; rewrite accepted_snoc, Hnil, app_nil_r, (marked_data _ _ Hm); apply Hin
             |intros Hby h0; rewrite accepted_snoc, Hnil, app_nil_r, (marked_data_of _ _ Hm); now apply Hn]).
@@ -708,7 +708,8 @@ Proof.
   { intros Hs Ha. rewrite Hs.
     assert (Hnil : forall h0, accepted_one h0 (OpAdd w h k t data rts, ObsAdd a) = []).
     { intros h0. cbn [accepted_one]. destruct a; try reflexivity. now elim Ha. }
-    split; [intros h0 d0|intros Hby h0]; rewrite accepted_snoc, Hnil, app_nil_r; auto. }
+    split; [intros h0 d0|intros Hby h0]; rewrite accepted_snoc, Hnil, app_nil_r; auto.
+    Show. }
   inversion O as [? ? _ [?|?] Hs|? _ _ Hs|? _ _ _ Hs|? _ _ _ _ Hs|? _ _ _ _ _ _ Hs
                  |? smp _ _ _ _ Hk Hi Hda _ _ _ Hpos Hs]; subst;
     try (apply Same; [exact Hs|discriminate]).
